@@ -102,6 +102,11 @@ thread_local! {
     static RECORDING: Cell<Option<NonNull<Record>>> = const { Cell::new(None) };
 }
 
+#[cfg(assets_manager_verif)]
+pub(crate) fn verif_recording_ptr() -> usize {
+    RECORDING.with(|rec| rec.get().map_or(0, |p| p.as_ptr() as usize))
+}
+
 pub(crate) fn record<F: FnOnce() -> T, T>(reloader: &HotReloader, f: F) -> (T, Dependencies) {
     RECORDING.with(|rec| {
         let mut record = Record::new(reloader);
